@@ -157,6 +157,8 @@ pub struct ConcurrentNodeIds {
 impl ConcurrentNodeIds {
     /// Creates an ID generator returning unique IDs, avoiding the specified used IDs.
     pub fn new(used: RoaringBitmap) -> ConcurrentNodeIds {
+        #[cfg(arroy_verif)]
+        crate::verif::log_used(&used);
         let last_id = used.max().map_or(0, |id| id + 1);
         let used_ids = used.len();
         let available = RoaringBitmap::from_sorted_iter(0..last_id).unwrap() - used;
@@ -172,18 +174,30 @@ impl ConcurrentNodeIds {
 
     /// Returns a new unique ID and increase the count of IDs used.
     pub fn next(&self) -> Result<u32> {
+        #[cfg(arroy_verif)]
+        crate::verif::chaos(10);
         if self.used.fetch_add(1, Ordering::Relaxed) > u32::MAX as u64 {
             Err(Error::DatabaseFull)
         } else if self.look_into_bitmap.load(Ordering::Relaxed) {
+            #[cfg(arroy_verif)]
+            crate::verif::chaos(11);
             let current = self.select_in_bitmap.fetch_add(1, Ordering::Relaxed);
+            #[cfg(arroy_verif)]
+            crate::verif::chaos(12);
             match self.available.select(current) {
                 Some(id) => Ok(id),
                 None => {
+                    #[cfg(arroy_verif)]
+                    crate::verif::chaos(13);
                     self.look_into_bitmap.store(false, Ordering::Relaxed);
+                    #[cfg(arroy_verif)]
+                    crate::verif::chaos(14);
                     Ok(self.current.fetch_add(1, Ordering::Relaxed))
                 }
             }
         } else {
+            #[cfg(arroy_verif)]
+            crate::verif::chaos(15);
             Ok(self.current.fetch_add(1, Ordering::Relaxed))
         }
     }
